@@ -219,6 +219,28 @@ def rqa_clauses(obj, R, miss=None, lmins=None, resample=False, label="", lags=Tr
         ok, v = call(name)
         yield name + "/default-min-length", ok and abs(float(v) - S.entropy(P, lo)) <= ATOL_H, f"got {v}"
 
+    # the documented `resampled_dist` argument with a pooled histogram in the format the resampling methods return (int32)
+    # whose counts are large: sum_l l*P(l) exceeds 2^31 while every count is below it - the measures are the same functions
+    # of the histogram (ratios are scale free)
+    for key_, P_, names_ in (("vert", PV, ("laminarity", "average_vertlength")),) + \
+            ((("diag", PD, ("determinism", "average_diaglength")),) if sym else ()):
+        tot_ = sum((l_ + 1) * c_ for l_, c_ in enumerate(P_))
+        mx_ = max(P_) if len(P_) else 0
+        if mx_ <= 0 or n < 2:
+            continue
+        K_ = (2 ** 31 - 1) // mx_
+        if tot_ * K_ <= 2 ** 31:
+            continue
+        big = (np.array(P_, dtype=np.int64) * K_).astype(np.int32)
+        for name in names_:
+            try:
+                v = getattr(obj, name)(2, resampled_dist=big.copy())
+            except Exception as e:                                   # noqa: BLE001
+                yield name + "/pooled-int32-histogram", False, f"{type(e).__name__}: {e}"
+                continue
+            want = S.ratio_points(P_, 2) if name in ("laminarity", "determinism") else S.average_length(P_, 2)
+            yield name + "/pooled-int32-histogram", _frac_close(v, want, 1e-9), f"counts x {K_}: got {v} want {float(want)}"
+
     if sym:
         ok, v = call("rqa_summary")
         want = {"RR": black / float(n * n), "DET": S.ratio_points(PD, 2),
